@@ -100,19 +100,80 @@ class Access(object):
         self.how = how
 
 
+class _Unalias(ast.NodeTransformer):
+    def __init__(self, mapping):
+        self.mapping = mapping
+
+    def visit_Name(self, node):
+        if node.id in self.mapping and isinstance(node.ctx, ast.Load):
+            a = self.mapping[node.id]
+            return ast.copy_location(ast.Attribute(value=ast.Name(id='self', ctx=ast.Load()), attr=a, ctx=ast.Load()), node)
+        return node
+
+
+def _aliases(f):
+    """locals bound exactly once to self.<F>.  Returns (fresh, stale): `fresh` aliases are only used before the generator
+    yields again (reading the local is reading the attribute); `stale` ones are used after a yield: the local is a
+    snapshot of shared state that other iterators may have changed in between."""
+    binds = {}
+    for n in own_nodes(f.node):
+        if isinstance(n, ast.Assign) and len(n.targets) == 1 and isinstance(n.targets[0], ast.Name):
+            binds.setdefault(n.targets[0].id, []).append(n)
+        elif isinstance(n, (ast.AugAssign, ast.For, ast.comprehension)):
+            t = n.target
+            for y in ast.walk(t):
+                if isinstance(y, ast.Name):
+                    binds.setdefault(y.id, []).append(None)
+    yields = [n for n in own_nodes(f.node) if isinstance(n, (ast.Yield, ast.YieldFrom))]
+    pm = parent_map(f.node)
+    fresh, stale = {}, {}
+    for name, bs in binds.items():
+        if len(bs) != 1 or bs[0] is None or not _self_attr(bs[0].value):
+            continue
+        b = bs[0]
+        uses = [n for n in own_nodes(f.node) if isinstance(n, ast.Name) and n.id == name and isinstance(n.ctx, ast.Load)]
+        crossed = None
+        for u in uses:
+            if any(b.lineno < y.lineno < u.lineno for y in yields):
+                crossed = u
+                break
+            # used inside a loop that yields, bound outside that loop
+            cur = u
+            while id(cur) in pm:
+                cur = pm[id(cur)]
+                if isinstance(cur, (ast.For, ast.While)) and any(any(z is y for z in ast.walk(cur)) for y in yields) and \
+                        not any(z is b for z in ast.walk(cur)):
+                    crossed = u
+                    break
+            if crossed:
+                break
+        if crossed is None:
+            fresh[name] = b.value.attr
+        else:
+            stale[name] = (b.value.attr, b, crossed)
+    return fresh, stale
+
+
 def accesses(ctx, fns):
     out = []
     for f in fns:
         if f.name == '__init__':
             continue
-        pm = parent_map(f.node)
+        fresh, _stale = _aliases(f)
+        wnode = f.node
+        if fresh:
+            # analyse the function with its short-lived aliases written out (positions are kept)
+            import copy as _copy
+            wnode = _Unalias(fresh).visit(_copy.deepcopy(f.node))
+            ast.fix_missing_locations(wnode)
+        pm = parent_map(wnode)
 
         def stmt_of(n):
             cur = n
             while id(cur) in pm and not isinstance(cur, ast.stmt):
                 cur = pm[id(cur)]
             return cur
-        for n in own_nodes(f.node):
+        for n in own_nodes(wnode):
             if _self_attr(n):
                 parent = pm.get(id(n))
                 st = stmt_of(n)
@@ -675,7 +736,19 @@ def _spill_file(ctx, cls, field, mark, ws, reads, acc):
         else:
             problems.append((a, 'unexpected operation on the shared spill file (%s)' % (a.how or a.kind)))
     if n_dump == 0 or n_load == 0:
-        raise AnalysisError('anchor vanished: no pickle.dump/load on the spill file self.%s of %s' % (field, cls.fq))
+        # is the file used through a stale local snapshot?
+        for f0 in reachable_methods(ctx, cls):
+            fresh0, stale0 = _aliases(f0)
+            for nm, (attr, b, use) in stale0.items():
+                if attr == field:
+                    problems.append((Access(field, 'read', f0, use, b),
+                                     'the spill file is used through the local `%s`, a snapshot of self.%s taken before the '
+                                     'generator yields: the "create it if there is none" test and every seek / dump / load '
+                                     'after that yield work on what the attribute was then -- two iterators parked at the '
+                                     'header each create a file of their own (one is never deleted) and share one mark'
+                                     % (nm, field)))
+        if not problems:
+            raise AnalysisError('anchor vanished: no pickle.dump/load on the spill file self.%s of %s' % (field, cls.fq))
     return problems
 
 
